@@ -393,7 +393,7 @@ pub fn judge_curve(c: &dyn CurveLike, ext: f64, tol: f64, case: &dyn Fn() -> Val
         return;
     }
     let same = |a: &StationObs, b: &StationObs| {
-        a.point == b.point && dist(&a.dir, &b.dir) <= 1e-12 && (a.length_along - b.length_along).abs() <= eps_l
+        dist(&a.point, &b.point) <= eps_p && dist(&a.dir, &b.dir) <= 1e-9 && (a.length_along - b.length_along).abs() <= eps_l
     };
     for i in 0..n {
         l.bucket(if closed && (i == 0 || i == n - 1) {
@@ -404,7 +404,7 @@ pub fn judge_curve(c: &dyn CurveLike, ext: f64, tol: f64, case: &dyn Fn() -> Val
             "interior-vertex station"
         });
         let s = &stations[i];
-        let mut ok = s.point == v[i] && (s.length_along - lens[i]).abs() <= eps_l;
+        let mut ok = dist(&s.point, &v[i]) <= eps_p && (s.length_along - lens[i]).abs() <= eps_l;
         if let Some(d) = vertex_dir(&v, i, closed, is_2d) {
             ok &= dist(&d, &s.dir) <= 1e-9;
             if let Some(at) = c.st_at_length(lens[i]) {
